@@ -468,6 +468,41 @@ Fixpoint w_run_ops (ops : list (tid * call)) (s : wstate) (tr : list wev) : wsta
 
 End WO.
 
+(* Specification automaton of one node n over a trace.  State: Some t = registered by agent t and
+   its callback has not started; None = not registered (never, or its callback has started).
+   The trace is accepted iff
+     - n is registered only while it is not registered,
+     - its callback is invoked only while it is registered, by a call of the registering agent
+       (so at most once per registration),
+     - the library touches n only while it is registered: never after the callback started (until
+       the user registers it again). *)
+Fixpoint node_run (n : nid) (st : option tid) (tr : list wev) : option (option tid) :=
+  match tr with
+  | [] => Some st
+  | WReg m t :: r =>
+      if Nat.eqb m n then match st with None => node_run n (Some t) r | Some _ => None end
+      else node_run n st r
+  | WCb m t :: r =>
+      if Nat.eqb m n then match st with
+                          | Some t' => if Nat.eqb t t' then node_run n None r else None
+                          | None => None end
+      else node_run n st r
+  | WNode m :: r =>
+      if Nat.eqb m n then match st with Some _ => node_run n st r | None => None end
+      else node_run n st r
+  | _ :: r => node_run n st r
+  end.
+Definition trace_ok (tr : list wev) : Prop := forall n, node_run n None tr <> None.
+
 (* the whole-operation model of the current source *)
 Definition gen_w_step : tid -> call -> wstate -> outcome (wstate * list wev) :=
   w_step gen_enter gen_exit gen_pop_first.
+
+(* states and traces reachable by whole-operation runs of the current source; every call is made
+   by an agent of U; the run ends at the first call that does not return normally *)
+Inductive reach_wo (U : list tid) : wstate -> list wev -> Prop :=
+| rwo_init : reach_wo U w0 []
+| rwo_step s tr t c s' evs :
+    reach_wo U s tr -> In t U -> gen_w_step t c s = Ok (s', evs) -> reach_wo U s' (tr ++ evs).
+
+Definition gen_w_run_ops := w_run_ops gen_enter gen_exit gen_pop_first.
